@@ -227,6 +227,11 @@ def playback(scratch, h, failed_checks=()):
                 dn = re.sub(r'\s+', '', d)
                 if dn and (dn in msg or msg in dn or (dn.startswith('indexoutofbounds') and msg.startswith('indexoutofbounds'))):
                     same = True
+            # a panic raised inside the library itself (not an assertion of the harness), where Kani too reported a failed check
+            # outside the harness file (e.g. a runtime-formatted panic message, which Kani replaces by a placeholder): the real
+            # code panics on the recorded input
+            if not same and pm and 'verif_kani_local_' not in pm.group(1) and any('/kani/' not in str(l) for _, l in failed_checks):
+                same = True
             res['outcome'] = 'reproduces' if same and msg else 'diverges'
             # a harness that replaces a real callee for CBMC (anything but the assert_invariant! shim) runs DIFFERENT code natively:
             # its native failure is not evidence about the counterexample, so it is never counted as a replay
